@@ -319,7 +319,20 @@ func drawAdd(t *rapid.T, sysName string) addOp {
 			Name: rapid.SampledFrom(append(append([]string(nil), pkgs...), unseenPkgs...)).Draw(t, "rname"),
 			Req:  rapid.SampledFrom(reqPool[sysName]).Draw(t, "rreq"),
 		}
-		switch rapid.IntRange(0, 7).Draw(t, "rtype") {
+		switch rapid.IntRange(0, 9).Draw(t, "rtype") {
+		case 8, 9:
+			// combinations: the documented order treats only a *plain* dev
+			// dependency specially, an aliased or scoped dev dependency sorts by name
+			r.Dev = rapid.Bool().Draw(t, "cdev")
+			r.Opt = rapid.IntRange(0, 3).Draw(t, "copt") == 0
+			if sysName == "NPM" {
+				if rapid.Bool().Draw(t, "calias") {
+					r.KnownAs = rapid.SampledFrom([]string{"alias", "A", "b", "Zed", "aaa"}).Draw(t, "alias2")
+				}
+				if rapid.IntRange(0, 2).Draw(t, "cscope") == 0 {
+					r.Scope = rapid.SampledFrom([]string{"peer", "bundle"}).Draw(t, "scope2")
+				}
+			}
 		case 0:
 			r.Dev = true
 		case 1:
